@@ -147,6 +147,29 @@ def abstract_search(ob, mod, timeout_ms=15000):
     return None
 
 
+def assumption_scan(mod):
+    """Mechanical scan (every run) of the contract sources this check imports: the places where a fact is assumed rather than
+    proved (st.assume / .assume( in contract and model code, E.assumption texts, `continue` that skips an exit without an
+    obligation is not detectable and is not counted). Preconditions, ghost-model axioms and callee contracts all show up here."""
+    import re
+    files = set()
+    src = open(mod.__file__).read()
+    files.add(mod.__file__)
+    cdir = os.path.dirname(mod.__file__)
+    for m in re.finditer(r"from \. import (\w+)(?: as \w+)?((?:, \w+(?: as \w+)?)*)", src):
+        names = [m.group(1)] + re.findall(r", (\w+)", m.group(2) or "")
+        for n in names:
+            f = os.path.join(cdir, n + ".py")
+            if os.path.exists(f):
+                files.add(f)
+    out = {}
+    for f in sorted(files):
+        t = open(f).read()
+        out[os.path.relpath(f, ROOT)] = {"assume_calls": len(re.findall(r"\.assume\(", t)), "assumption_texts": len(re.findall(r"\.assumption\(", t)),
+                                         "contract_functions": len(re.findall(r"^def \w+_contract\(", t, re.M))}
+    return out
+
+
 def run(prop, tier="quick", seed=0, replay_path=None):
     t0 = time.time()
     mod = importlib.import_module("contracts." + prop.lower())
@@ -445,6 +468,7 @@ def run(prop, tier="quick", seed=0, replay_path=None):
             "not_covered_clauses": getattr(mod, "NOT_COVERED", []),
             "undecided": status["undecided"], "out_of_reach": status["out_of_reach"],
             "engine_stats": E.stats,
+            "assumption_scan": assumption_scan(mod),
             "explanation": getattr(mod, "__doc__", "") or "",
         },
         "assumptions": getattr(mod, "ASSUMPTIONS", []) + E.assumptions,
